@@ -257,6 +257,7 @@ class PE:
         self.max_visits = 0
         self.memo_joins = False
         self.deadline = None
+        self.abort = None
 
     # ---- hooks ---------------------------------------------------------------------------------
     def init_mem(self, state, base, path, type_):
@@ -476,6 +477,9 @@ class PE:
         work = [(stack, block, prev, state, idx)]
         while work:
             stack, block, prev, state, idx = work.pop()
+            if self.abort:
+                self.leaves.append(Leaf("abort", state, None, block.instrs[0], self.abort))
+                return
             if self.deadline is not None and (self.steps & 0x3ff) < 8:
                 import time
                 if time.time() > self.deadline:
